@@ -312,11 +312,12 @@ def seq_compare(I, ty, a, b):
             return z3.Not(bz(veq(x, y)))
         p, q = unify(x, y)
         return _CMP[ty](p, q)
-    if isinstance(a, SymSeq) and ty in (ast.Gt, ast.GtE) and \
+    if isinstance(a, SymSeq) and ty is ast.Gt and \
             a.__dict__.get("sub_of") is not None and not I.spec:
-        # IEEE fact the real-number model lacks: for floats p, q, u the test
-        # (p - q) > u is False whenever p is -inf or NaN (then p - q is -inf
-        # or NaN, and no comparison with NaN is True).  Acceptance masks of
+        # IEEE fact the real-number model lacks: for floats p, q, u the
+        # STRICT test (p - q) > u is False whenever p is -inf or NaN (then
+        # p - q is -inf or NaN; nothing is below -inf and no comparison with
+        # NaN is True).  (Not so for >=: -inf >= -inf.)  Acceptance masks of
         # the form (log_w - max) > log_u rely on it to keep zero-weight
         # points out.
         pseq = a.sub_of
